@@ -15,7 +15,7 @@ from .c15 import items_of
 PROP = "C16"
 RULE = (
     "All strings of length <=5 (quick) / <=6 (thorough) over {a, b, space, \\n, U+3000, \\t} as plain str, as a single run and in every "
-    "2-run layout (formatting changing inside words and inside whitespace runs; every fourth string also in colours differing from the usual ones only by value), columns 1,2,3,5 enumerated; Hypothesis adds "
+    "2-run layout (formatting changing inside words and inside whitespace runs; every fourth string also in colours differing from the usual ones only by value, every fourth with an empty run of other formatting at each cut), columns 1,2,3,5 enumerated; Hypothesis adds "
     "longer texts, 9 kinds of whitespace, 1-5 runs and columns 1..8. Oracle: greedy reference wrap on cell lists (words = maximal "
     "non-whitespace runs; a word joins the current line iff len+1+len(word) <= columns; longer words cut into columns-sized pieces) "
     "must equal the result line by line on word cells; each joining space is one ' ' whose attribute items lie between the "
@@ -217,6 +217,10 @@ def campaign(col, tier, seed, shard, nshards):
             variants = [{"str": s}, {"desc": [[s, FMTS[i % 3]]]}]
             for k in range(1, L):
                 variants.append({"desc": [[s[:k], FMTS[(i + k) % 3]], [s[k:], FMTS[(i + k + 1) % 3]]]})
+            if i % 4 == 2:
+                # an empty run of another formatting at every cut, the same formatting on both sides of it
+                for k in range(1, L):
+                    variants.append({"desc": [[s[:k], FMTS[i % 2]], ["", FMTS[2 - (i % 2) * 1]], [s[k:], FMTS[i % 2]]]})
             if i % 4 == 1:
                 # every fourth string also in colours that differ from the usual ones only by value
                 variants.append({"desc": [[s, FMTS_OTHER_VALUES[i % 4]]]})
